@@ -6,6 +6,8 @@
 (* state) and what walk_ports reported for three name-buffer prefixes, whether    *)
 (* each reported address reaches its port, and what Ports::apropos returns.       *)
 EXTENDS PortTree, Metadata, Json, IOUtils
+W == INSTANCE OscWire
+PU == INSTANCE PathUtil
 Log == ndJsonDeserialize(IOEnv.TRACE)
 VARIABLE l
 NB == 64
@@ -74,6 +76,37 @@ MetaFails(r) ==
             [] k = "lookup" -> \A i \in 1..Len(r.queries) : LET q == r.queries[i]  e == Lookup(r.es, q.key) IN q.some = e.some /\ (e.some => q.val = e.val)
             [] k = "find" -> \A i \in 1..Len(r.queries) : r.queries[i].found = HasKey(r.es, r.queries[i].key) }
 
-Fails(r) == CASE r.k = "dispatch" -> DispatchFails(r) [] r.k = "walk" -> WalkFails(r) [] r.k = "meta" -> MetaFails(r)
+\* ------------------------------------------------------------------ C18
+CollapseFails(r) ==
+  IF r.sig # 0 THEN {"crash_or_hang"}
+  ELSE {k \in {"oob", "render", "inside_buffer", "collapsed"} :
+        ~ CASE k = "oob" -> r.asan = 0
+            [] k = "render" -> r.path = PU!RenderPath(r.comps)
+            [] k = "inside_buffer" -> r.inside
+            [] k = "collapsed" -> r.result \in PU!CollapseAllowed(r.comps) }
+\* the children a location addresses: the root table, or the table below the sub-tree port named loc
+ChildrenAt(tb, loc) ==
+  IF loc = <<>> \/ loc = <<47>> THEN tb.ports
+  ELSE LET hit == { i \in 1..Len(tb.ports) : ~ tb.ports[i].leaf /\ <<47>> \o tb.ports[i].name = loc } IN
+       IF hit = {} THEN <<>> ELSE tb.ports[CHOOSE i \in hit : TRUE].sub.ports
+AsChildren(ps) == [i \in 1..Len(ps) |-> [name |-> ps[i].name, meta |-> ps[i].meta]]
+\* decode the reply: "/paths" , (s name, b metadata)* , optionally preceded by the two query strings
+ReplyPairs(d, skip) == [i \in 1..((Len(d.args) - skip) \div 2) |-> [name |-> d.args[skip + 2 * i - 1].v, meta |-> d.args[skip + 2 * i].v]]
+QueryFails(tb, q) ==
+  LET d == W!Decode(q.reply)
+      skip == IF q.with_query THEN 2 ELSE 0 IN
+  IF q.asan # 0 THEN {"oob"}
+  ELSE IF ~ d.ok \/ d.len # Len(q.reply) \/ ~ q.valid THEN {"reply_malformed"}
+  ELSE {k \in {"reply_address", "reply_shape", "reply_query", "result"} :
+        ~ CASE k = "reply_address" -> d.addr = <<47, 112, 97, 116, 104, 115>>
+            [] k = "reply_shape" -> /\ (Len(d.args) - skip) % 2 = 0 /\ Len(d.args) >= skip
+                                    /\ \A i \in 1..Len(d.args) : d.args[i].t = (IF i <= skip \/ (i - skip) % 2 = 1 THEN "s" ELSE "b")
+            [] k = "reply_query" -> q.with_query => (Len(d.args) >= 2 /\ d.args[1].v = q.loc /\ d.args[2].v = q.needle)
+            [] k = "result" -> PU!IsSearchResult(ReplyPairs(d, skip), AsChildren(ChildrenAt(tb, q.loc)), q.needle, q.opt) }
+SearchFails(r) ==
+  IF r.sig # 0 THEN {"crash_or_hang"}
+  ELSE UNION { QueryFails(r.table, r.queries[i]) : i \in 1..Len(r.queries) }
+
+Fails(r) == CASE r.k = "dispatch" -> DispatchFails(r) [] r.k = "walk" -> WalkFails(r) [] r.k = "meta" -> MetaFails(r) [] r.k = "collapse" -> CollapseFails(r) [] r.k = "search" -> SearchFails(r)
 Judge == l < 0 \/ LET f == Fails(Log[l]) IN f = {} \/ PrintT(<<"REJECT", l, f, FirstBad(Log[l])>>)
 =============================================================================
